@@ -62,6 +62,9 @@ type world struct {
 	h       *hx.T
 	curOp   string
 	cbInOp  int
+	gate    chan struct{} // the owner loop is parked on it while `blocked`
+	blocked bool
+	dead    bool // the run service was stopped (rstop)
 }
 
 func (w *world) now() int { return int(time.Since(w.base) / time.Millisecond) }
@@ -214,10 +217,17 @@ func (w *world) shutdown() {
 		return
 	}
 	w.mgr.Stop()
+	if w.blocked {
+		close(w.gate)
+		w.blocked = false
+	}
 	if w.srv != nil {
-		w.srv.Stop()
+		if !w.dead {
+			w.srv.Stop()
+		}
 		w.srv = nil
 	}
+	w.dead = false
 	for i := 0; i < 100; i++ {
 		synctest.Wait()
 		n := 0
@@ -253,7 +263,12 @@ func (w *world) qlen() int { return len(w.mgr.GetQueue()) }
 func (w *world) suffix(manual string) string {
 	l, off := w.takeLog()
 	if w.rs {
-		return fmt.Sprintf("ev=%s q=%d loop=%d", strings.Join(l, ";"), w.qlen(), hx.B2i(!off))
+		q := fmt.Sprint(w.qlen())
+		if w.dead {
+			// how many queued objects the exiting loop still takes is up to reflect.Select
+			q = "?"
+		}
+		return fmt.Sprintf("ev=%s q=%s loop=%d", strings.Join(l, ";"), q, hx.B2i(!off))
 	}
 	s := manual
 	if len(l) > 0 {
@@ -297,7 +312,48 @@ func (w *world) exec(op string) string {
 	if w.mgr == nil {
 		return "bad-op"
 	}
+	if w.dead && ws[0] != "adv" && ws[0] != "unblock" {
+		return "bad-op"
+	}
+	if w.blocked && ws[0] != "adv" && ws[0] != "unblock" && ws[0] != "rstop" {
+		return "bad-op"
+	}
 	switch ws[0] {
+	case "block": // the owner loop gets stuck in a posted closure: expiries pile up in the queue
+		if !w.rs {
+			return "bad-op"
+		}
+		w.gate = make(chan struct{})
+		g := w.gate
+		w.srv.GetScheduler().Post(func() { <-g })
+		synctest.Wait()
+		w.blocked = true
+		return w.suffix("")
+	case "unblock":
+		if !w.blocked {
+			return "bad-op"
+		}
+		close(w.gate)
+		w.blocked = false
+		synctest.Wait()
+		return w.suffix("")
+	case "rstop": // StandardRunService.Stop, from a foreign goroutine (the harness) or from the owner loop
+		by, _ := hx.KV(ws, "by")
+		if !w.rs || (by != "foreign" && by != "owner") || (by == "owner" && w.blocked) {
+			return "bad-op"
+		}
+		r := ""
+		if by == "foreign" {
+			r = hx.Guard(func() string { w.srv.Stop(); return "" })
+		} else {
+			w.srv.GetScheduler().Post(func() { w.srv.Stop() })
+		}
+		synctest.Wait()
+		w.dead = true
+		if r != "" {
+			return "panic " + w.suffix("")
+		}
+		return w.suffix("")
 	case "script":
 		n, ok := kvNat(ws, "n")
 		if !ok {
@@ -579,6 +635,38 @@ func (g *gen) caseScenario() {
 	}
 }
 
+// the owner loop is busy while timers expire, then the run service is stopped (from a foreign
+// goroutine while the loop is still stuck, or after it resumed; or by the owner itself)
+func (g *gen) caseBusyStop() {
+	r := g.h.R
+	g.created = 0
+	g.run("reset rs=1")
+	g.scripts()
+	n := 1 + r.Intn(5)
+	for i := 0; i < n; i++ {
+		g.mk([]string{"after", "add"}[r.Intn(2)], 1+r.Intn(4), r.Intn(6))
+	}
+	g.run("block")
+	g.run(fmt.Sprintf("adv d=%d", 1+r.Intn(6)))
+	switch v := r.Intn(4); v {
+	case 0, 1:
+		g.h.Count("scenario.stop-foreign-while-owner-busy")
+		g.run("rstop by=foreign")
+		g.run("unblock")
+	case 2:
+		g.h.Count("scenario.owner-busy-then-drain")
+		g.run("unblock")
+		g.randomOps(true, r.Intn(6))
+		g.run("rstop by=" + []string{"foreign", "owner"}[r.Intn(2)])
+	case 3:
+		g.h.Count("scenario.stop-by-owner")
+		g.run("unblock")
+		g.run("rstop by=owner")
+	}
+	g.run(fmt.Sprintf("adv d=%d", 1+r.Intn(5)))
+	g.run("cancel id=2") // dead service: rejected
+}
+
 // more timers than the queue channel holds: expiry goroutines block and resume in order
 func (g *gen) caseOverflow() {
 	g.created = 0
@@ -668,9 +756,12 @@ func TestRun(t *testing.T) {
 				switch x := h.R.Intn(10); {
 				case x < 3:
 					g.caseScenario()
-				case x < 5:
+				case x < 4:
 					h.Count("case.rs")
 					g.caseRandom(true)
+				case x < 5:
+					h.Count("case.rs-busy-stop")
+					g.caseBusyStop()
 				default:
 					h.Count("case.manual")
 					g.caseRandom(false)
